@@ -549,7 +549,12 @@ LongEls(r) == {El("param", d, v, 3, IF d.loc = "path" THEN 2 ELSE 0, "none") :
                  v \in Long(r)}
 PathPrim == D3("path", "simple", "default", "prim")
 UrlEls == {El("url", PathPrim, v, b, t, "none") : v \in UrlVals, b \in Bases, t \in Tmpls}
+(* multipart/form-data: small text-only forms over the declared properties a, b (and the same with `a` declared as a binary /  *)
+(* file-like field).  Only the Content-Type's media type is judged for them; the multipart encoding itself is outside the fragment *)
+AllStr(v) == \A i \in 1..Len(v.items) : v.items[i].t = "str"
+MultipartVals(r) == {v \in {VObj(<<kA>>, <<x>>) : x \in ItemsA} \cup {VObj(<<kA, kB>>, p) : p \in ItemPairs(r)} : AllStr(v)}
 BodyEls(n, r) == {El("body", NoDef, v, 3, 0, "json") : v \in JsonVals(r)}
+                    \cup {El("body", NoDef, v, 3, 0, m) : v \in MultipartVals(r), m \in {"multipart", "multipart-file"}}
                     \cup {El("body", NoDef, v, 3, 0, "form") : v \in ObjVals(r)}
                     \cup {El("body", NoDef, v, 3, 0, "text") : v \in TextVals(n)}
 Elements(n, r) == ParamEls(n, r) \cup LongEls(r) \cup UrlEls \cup BodyEls(n, r)
@@ -561,6 +566,10 @@ Spec == Init /\ [][Next]_el
 
 -----------------------------------------------------------------------------
 (* design invariants, checked on every element *)
+(* media type of a Content-Type field value: the part before the parameters, blanks trimmed, case-insensitive (RFC 7231 3.1.1.1) *)
+LowerCase(t) == [i \in 1..Len(t) |-> IF t[i] \in 65..90 THEN t[i] + 32 ELSE t[i]]
+MediaTypeOf(t) == LowerCase(Reverse(StripLeft(Reverse(StripLeft(SplitFirst(t, cSEMI).a)))))
+
 TypeOK == el.kind \in {"param", "url", "body"} /\ el.val.k \in {"prim", "arr", "obj"}
 (* the decoders are left inverses of the table's encoder on the fragment *)
 RoundTrip == (el.kind # "body" /\ Fragment(el.def, el.val) = "T")
@@ -570,6 +579,7 @@ CodecRoundTrip == \A t \in Texts(el.val) : /\ Txt(PctEncode(t), "pct") = [t |-> 
                                            /\ Txt(PctEncode(t), "form") = [t |-> t, bad |-> FALSE]
                                            /\ Utf8Decode(Utf8Encode(t)) = [t |-> t, bad |-> FALSE]
 (* JSON text of every value parses back to the same typed value *)
+MediaTypeSane == MediaTypeOf(<<77, 117, 108, 116, 105, 47, 88, cSP, cSEMI, cSP, 98, cEQ, 49>>) = <<109, 117, 108, 116, 105, 47, 120>>   \* "Multi/X ; b=1"
 JsonRoundTrip == LET j == JsonParse(JsonText(el.val)) IN j.ok /\ SameTyped(j.val, el.val)
 (* coercion never confuses a boolean / null with Python's spelling *)
 CoerceJsonLike == \A i \in 1..Len(el.val.items) : el.val.items[i].t = "bool" => Coerce(el.val.items[i]) \in {<<116, 114, 117, 101>>, <<102, 97, 108, 115, 101>>}
